@@ -146,8 +146,28 @@ impl<'a> Gen<'a> {
         }
         let id = match self.r.below(20) { 0 | 1 | 2 | 3 => "-".to_string(), 4 => "bad id!".replace(' ', "_"), _ => format!("{}{}", ["a", "b", "c", "x.y", "pool/1"][self.r.below(5) as usize], self.r.below(4)) };
         let (ty, amp) = match p.pool_type { mantra_dex_std::pool_manager::PoolType::ConstantProduct => ("cp", 0), mantra_dex_std::pool_manager::PoolType::StableSwap { amp } => ("ss", if self.r.chance(1, 30) { 0 } else { amp }) };
+        // malformed shapes now and then (all to be refused): one asset, five assets, a constant-product pool with three,
+        // a decimals list shorter / longer than the asset list
+        let mut ty = ty;
+        let mut dec_tok: Vec<String> = p.asset_decimals.iter().map(|d| d.to_string()).collect();
+        if self.r.chance(1, 9) {
+            match self.r.below(5) {
+                0 => { p.asset_denoms.truncate(1); dec_tok.truncate(1); }
+                1 => {
+                    for d in BASE_DENOMS.iter() { if p.asset_denoms.len() < 5 && !p.asset_denoms.iter().any(|x| x == d) { p.asset_denoms.push(d.to_string()); dec_tok.push("6".into()); } }
+                    ty = "ss";
+                }
+                2 => {
+                    ty = "cp";
+                    for d in BASE_DENOMS.iter() { if p.asset_denoms.len() < 3 && !p.asset_denoms.iter().any(|x| x == d) { p.asset_denoms.push(d.to_string()); dec_tok.push("6".into()); } }
+                }
+                3 => { let k = self.r.below(dec_tok.len() as u64) as usize; dec_tok[k] = "x".into(); }
+                _ => { let k = self.r.below(dec_tok.len() as u64) as usize; dec_tok[k] = format!("+{}", dec_tok[k]); }
+            }
+        }
+        let amp = if ty == "ss" && amp == 0 && !self.r.chance(1, 30) { 100 } else { amp };
         let mut s = format!("{} {} {}", ty, amp, p.asset_denoms.len());
-        for (i, d) in p.asset_denoms.iter().enumerate() { s += &format!(" {} {}", d, p.asset_decimals[i]); }
+        for (i, d) in p.asset_denoms.iter().enumerate() { s += &format!(" {} {}", d, dec_tok[i]); }
         let mut fees = p.pool_fees.clone();
         if self.r.chance(1, 25) { fees.swap_fee.share = Decimal::percent(25); }
         // fee limits at and just beyond the boundary, carried by the EXTRA fees: named fees at exactly 20 % plus a tiny
@@ -230,6 +250,19 @@ impl<'a> Gen<'a> {
             }
             if n > 2 && self.r.chance(1, 4) { funds.pop(); }
             if funds.is_empty() { funds.push(coin(1000, pi.assets[0].denom.clone())); }
+            // a SUBSET of the assets of a 3–4 asset pool (or all of them) in EXACT proportion to their reserves (j x reserve,
+            // or reserve / m where that is exact): the pool as a whole does not grow by that ratio unless every asset is there
+            if n > 2 && self.r.chance(1, 5) {
+                let keep = 2 + self.r.below((n - 1) as u64) as usize;            // 2 … n assets
+                let skip = self.r.below(n as u64) as usize;
+                let idx: Vec<usize> = (0..n).map(|i| (i + skip) % n).take(keep.min(n)).collect();
+                let j = 1 + self.r.below(2) as u128;
+                let m = [1u128, 2, 4, 5, 10][self.r.below(5) as usize];
+                let exact = idx.iter().all(|i| pi.assets[*i].amount.u128() % m == 0 && pi.assets[*i].amount.u128() > 0 && pi.assets[*i].amount.u128() < u128::MAX / 4);
+                if exact {
+                    funds = idx.iter().map(|i| coin(pi.assets[*i].amount.u128() * j / m, pi.assets[*i].denom.clone())).filter(|c| !c.amount.is_zero()).collect();
+                }
+            }
         }
         // a deposit as large as the pool itself and skewed by a factor s, under a tolerance t around 1 - 1/s: whether it is
         // within t of the POOL ratio (as it was before the deposit) decides; the deposit moves the ratio a lot
@@ -1227,6 +1260,19 @@ impl<'a> Gen<'a> {
     pub fn op_fm_config(&mut self) {
         let sender = if self.r.chance(5, 6) { "owner" } else { pick_user(self.r) };
         let mut f: Vec<String> = vec!["-".into(); 11];
+        // the three addresses of the configuration: fee collector (any account), epoch manager / pool manager (re-set to
+        // themselves, or to something invalid — refused)
+        if self.r.chance(1, 6) {
+            match self.r.below(6) {
+                0 | 1 => { f[0] = ["u4", "u3", "fc"][self.r.below(3) as usize].into(); }
+                2 => { f[0] = "bogus".into(); }
+                3 => { f[1] = "em".into(); }
+                4 => { f[2] = "pm".into(); }
+                _ => { f[1 + self.r.below(2) as usize] = "bogus".into(); }
+            }
+            self.emit(format!("tx {} 0 fm config {}", sender, f.join(" ")));
+            return;
+        }
         match self.r.below(8) {
             0 => { f[3] = "uom".into(); f[4] = "0".into(); }
             1 => { f[3] = "uusd".into(); f[4] = "500".into(); }
